@@ -402,6 +402,10 @@ func replayMain(t *testing.T, sc *Scenario, path string) {
 		os.Exit(2)
 	}
 	out := sc.Run(t, rf.Plan)
+	if out.Hung && rf.Violation.Class == "" {
+		fmt.Println("REPLAY hung again (wall-clock hang limit)")
+		os.Exit(4)
+	}
 	if len(out.Infra) > 0 {
 		fmt.Println("REPLAY infra:", strings.Join(out.Infra, "; "))
 		os.Exit(2)
